@@ -119,7 +119,8 @@ func (s *realSched) CancelJob(ctx context.Context, name string) error {
 	s.mu.Lock()
 	defer s.mu.Unlock()
 	err := s.inner.CancelJob(ctx, name)
-	if err == nil {
+	if sh := s.jobs[name]; err == nil || (sh != nil && sh.Ctx != nil && sh.Ctx.Err() != nil) {
+		// (a job whose parent context is done has been dropped by the real scheduler itself)
 		delete(s.jobs, name)
 	}
 	return err
